@@ -158,6 +158,7 @@ type rangeIter struct {
 	X     Val
 	isMap bool
 	mt    *types.Map
+	dom0  string // key set at range start
 }
 
 var rangeIters = map[*ssa.Range]*rangeIter{}
@@ -174,6 +175,9 @@ func (vc *VC) rangeStart(fr *Frame, st *State, ins *ssa.Range) Val {
 				gs := arraySort(ks, sortBool)
 				st.ghost[name] = Val{K: KGhost, GSort: gs, S: fmt.Sprintf("((as const %s) false)", gs)}
 			}
+			// key set when the range statement starts (the loop may insert afterwards)
+			d := vc.heapGet(st, "M:"+typeKey(mt)+".dom", arraySort(sortRef, arraySort(ks, sortBool)))
+			it.dom0 = vc.sc.define("rng.dom0", arraySort(ks, sortBool), sel(d, x.S))
 		}
 	}
 	rangeIters[ins] = it
@@ -256,6 +260,15 @@ func (vc *VC) rangeNext(fr *Frame, st *State, ins *ssa.Next) Val {
 					base := "M:" + typeKey(it.mt)
 					d := vc.heapGet(st, base+".dom", arraySort(sortRef, arraySort(ks, sortBool)))
 					all := fmt.Sprintf("(forall ((k!q %s)) (! (=> (select (select %s %s) k!q) (select %s k!q)) :pattern ((select (select %s %s) k!q))))", ks, d, it.X.S, vis.S, d, it.X.S)
+					vc.assume(st, implies(not(okv), all))
+				} else if it.dom0 != "" {
+					// the loop may insert into a map of this type: keys present when the range started
+					// and still present have all been produced (Go spec: entries added during iteration
+					// may or may not be produced; entries not yet reached and removed are not)
+					ks, _ := vc.mapKeySort(it.mt)
+					base := "M:" + typeKey(it.mt)
+					d := vc.heapGet(st, base+".dom", arraySort(sortRef, arraySort(ks, sortBool)))
+					all := fmt.Sprintf("(forall ((k!q %s)) (! (=> (and (select %s k!q) (select (select %s %s) k!q)) (select %s k!q)) :pattern ((select (select %s %s) k!q))))", ks, it.dom0, d, it.X.S, vis.S, d, it.X.S)
 					vc.assume(st, implies(not(okv), all))
 				}
 				st.ghost[name] = Val{K: KGhost, GSort: vis.GSort, S: vc.sc.define("vis", vis.GSort, ite(okv, store(vis.S, kterm, "true"), vis.S))}
